@@ -56,7 +56,7 @@ ALL_INV = "TypeOK StartupFirst StartupOrder NoSyncForDisabled SyncInMain NeverDi
 SIM_CFG = """SPECIFICATION SimSpec
 CONSTANTS
   Hooks <- Hooks%(cfg)s
-  MaxEvents = 6
+  MaxEvents = 9
   MaxTicks = 3
   MaxFails = 3
   FixF8 = %(f8)s
@@ -159,6 +159,27 @@ def e2e(ctx, prefixes, configs, per, depth=50, sdafter=9999):
 
 
 def check_c03(ctx):
+    # queue level: TLC behaviours of spec/TaskQueue (public operations interleaved with the worker, no Stop) replayed on the
+    # real queue, judging only which task the handler is given next (HeadFirst is an action property of that spec)
+    import tq
+    vlib.tlc(ctx, "TaskQueue", "TaskQueue", "MC_quick.cfg", timeout=600, expect_violation=False)
+    tqbin = vlib.go_build(ctx, "tq")
+    behs = tq.gen_behaviours(ctx, ctx.pick(300, 4000), 60, consts={"WithStop": "FALSE"})
+    inp, outp = ctx.path("tq_in.jsonl"), ctx.path("tq_out.jsonl")
+    vlib.write_jsonl(inp, behs)
+    rr = vlib.run_bin(ctx, tqbin, ["replay", "-mode", "c03", "-in", inp, "-out", outp], timeout=1500)
+    if rr["rc"] != 0:
+        raise Infra("tq replay failed: " + rr["stderr"][-1500:])
+    picks = 0
+    for b, o in zip(behs, vlib.read_jsonl(outp)):
+        picks += sum(1 for s in b if s["act"][0] == "W_Get")
+        if not o["ok"]:
+            if o["sig"].startswith("C03/"):
+                ctx.fail(o["sig"], o["detail"], vlib.replay_payload("tq", ["replay", "-mode", "c03", "-in", "{in}", "-out", "{out}"], b, human={"actions": [s["act"] for s in b[1:o.get("bad_step", 0) + 1]]}))
+            else:
+                ctx.notes.append("DIVERGENCE %s: %s" % (o["sig"], o["detail"][:200]))
+    ctx.log("queue level: %d behaviours (%d picks) replayed on the real queue, executed task = head of the list" % (len(behs), picks))
+    ctx.cov["queue_level_behaviours"] = len(behs)
     run(ctx, ("C03/",), "placement, head-first, one execution per queue")
 
 
